@@ -95,5 +95,64 @@ def names_in(e: ast.AST) -> set[str]:
     return {x.id for x in ast.walk(e) if isinstance(x, ast.Name)}
 
 
+class _Alpha(ast.NodeTransformer):
+    """Bound variables of comprehensions and lambdas get positional names (_c1, _c2, … / _l1, …): the text of an expression
+    does not depend on what a maintainer called them."""
+
+    def __init__(self):
+        self.n = 0
+        self.env: list[dict] = []
+
+    def visit_Name(self, n):
+        for fr in reversed(self.env):
+            if n.id in fr:
+                return ast.copy_location(ast.Name(id=fr[n.id], ctx=n.ctx), n)
+        return n
+
+    def _comp(self, node):
+        fr: dict = {}
+        self.env.append(fr)
+        gens = []
+        for g in node.generators:
+            it = self.visit(g.iter)            # the iterable is evaluated before the target is bound
+            for t in ast.walk(g.target):
+                if isinstance(t, ast.Name) and t.id not in fr:
+                    # named by nesting depth and position, so equal sub-expressions get equal texts wherever they occur
+                    fr[t.id] = f"_c{len(self.env)}{'abcdefgh'[len(fr) % 8]}"
+            gens.append(ast.comprehension(target=self.visit(g.target), iter=it, ifs=[self.visit(i) for i in g.ifs], is_async=g.is_async))
+        if isinstance(node, ast.DictComp):
+            new = ast.DictComp(key=self.visit(node.key), value=self.visit(node.value), generators=gens)
+        else:
+            new = type(node)(elt=self.visit(node.elt), generators=gens)
+        self.env.pop()
+        return ast.copy_location(new, node)
+    visit_ListComp = visit_SetComp = visit_GeneratorExp = visit_DictComp = _comp
+
+    def visit_Lambda(self, node):
+        fr = {}
+        for a in node.args.args:
+            fr[a.arg] = f"_l{len(self.env) + 1}{'abcdefgh'[len(fr) % 8]}"
+        self.env.append(fr)
+        import copy
+        args = copy.deepcopy(node.args)
+        for a in args.args:
+            a.arg = fr[a.arg]
+        new = ast.Lambda(args=args, body=self.visit(node.body))
+        self.env.pop()
+        return ast.copy_location(new, node)
+
+
 def txt(e: ast.AST) -> str:
+    """Normalised text of an expression / statement (whitespace collapsed, bound variables alpha-renamed)."""
+    import copy
+    if any(isinstance(x, (ast.ListComp, ast.SetComp, ast.GeneratorExp, ast.DictComp, ast.Lambda)) for x in ast.walk(e)):
+        e = _Alpha().visit(copy.deepcopy(e))
     return " ".join(ast.unparse(e).split())
+
+
+def canon(s: str) -> str:
+    """txt() of a source string (lets rules write expected forms with readable variable names)."""
+    try:
+        return txt(ast.parse(s, mode="eval").body)
+    except SyntaxError:
+        return s
